@@ -213,6 +213,8 @@ func kindType(f bfldJ) reflect.Type {
 		return reflect.TypeOf((*struct{ X int })(nil))
 	case "embedded":
 		return reflect.TypeOf(struct{ X int }{})
+	case "embeddedptr":
+		return reflect.TypeOf((*struct{ X int })(nil))
 	}
 	panic("bad field kind " + f.Kind)
 }
@@ -249,7 +251,7 @@ func descType(fs []bfldJ, tname string) reflect.Type {
 		if c := name[0]; c >= 'a' && c <= 'z' {
 			x.PkgPath = "main"
 		}
-		if f.Kind == "embedded" {
+		if f.Kind == "embedded" || f.Kind == "embeddedptr" {
 			x.Anonymous = true
 		}
 		sf = append(sf, x)
